@@ -487,6 +487,19 @@ func (n *normalizer) sroaEdits(f *ast.File) []textEdit {
 					return true
 				}
 				vs := gd.Specs[0].(*ast.ValueSpec)
+				if len(vs.Names) > 1 && len(vs.Values) == 0 && vs.Type != nil {
+					// var a, b T  ->  one declaration per variable (split in a later round)
+					if tv, ok := info.Types[vs.Type]; ok {
+						if _, isStruct := tv.Type.Underlying().(*types.Struct); isStruct {
+							var sb strings.Builder
+							for _, nm := range vs.Names {
+								fmt.Fprintf(&sb, "var %s %s\n", nm.Name, text(vs.Type))
+							}
+							edits = append(edits, textEdit{n.off(y.Pos()), n.off(y.End()), sb.String()})
+						}
+					}
+					return true
+				}
 				if len(vs.Names) != 1 || vs.Names[0].Name == "_" || len(vs.Values) > 1 {
 					return true
 				}
